@@ -12,7 +12,11 @@ def st_instrument(draw, cfg, idx, sizes_kind, expiry_h=240, underlying=None):
     under = underlying if underlying is not None else (draw(st.integers(150000, 350000)) / 100 if cfg == "ETH" else draw(st.integers(3000000, 7000000)) / 100)
     strike = int(round(under / 50)) * 50 + draw(st.integers(-6, 6)) * 50 + idx  # distinct strikes -> distinct names
     tick = D("0.0005") if cfg == "ETH" else D("0.0001")
-    mark_ticks = draw(st.integers(4, 380))
+    dyadic = draw(st.integers(0, 4)) == 0
+    if dyadic:
+        # binary-exact prices: a level can sit exactly on mark x multiple (1.5, 2, 3), the boundary of a capped order
+        tick = D(1) / D(2048)
+    mark_ticks = draw(st.integers(2, 12)) if dyadic else draw(st.integers(4, 380))
     half = draw(st.sampled_from([0, 0, 1]))  # mark on the grid or between two grid points
     mark = D(mark_ticks) * tick + (tick / 2 if half else 0)
     na, nb = draw(st.integers(0, 8)), draw(st.integers(0, 8))
@@ -48,7 +52,7 @@ def st_mode(draw, ins, is_buy):
     if k == "market" or not side and k in ("token", "usd", "cap+token"):
         return ["market"]
     if k == "cap":
-        return ["cap", draw(st.sampled_from(["1.0001", "1.02", "1.1", "1.5", "3"]))]
+        return ["cap", draw(st.sampled_from(["1.0001", "1.02", "1.1", "1.5", "2", "3"]))]
     lvl = side[draw(st.integers(0, len(side) - 1))]
     jit = D(draw(st.sampled_from(["0", "0", "0.0005", "-0.0005", "0.002", "-0.002"])))
     price = D(str(lvl[0])) * (1 + jit)
@@ -56,7 +60,7 @@ def st_mode(draw, ins, is_buy):
         return ["token", format(price, "f")]
     if k == "usd":
         return ["usd", format(price * D(str(ins["underlying"])), "f")]
-    return ["token", format(price, "f"), None, draw(st.sampled_from(["1.02", "1.2", "3"]))]
+    return ["token", format(price, "f"), None, draw(st.sampled_from(["1.02", "1.2", "2", "3"]))]
 
 
 @st.composite
